@@ -58,6 +58,11 @@ func ndExpectation0(in []byte) (ok bool, docs []*rj.Node, judged bool, why strin
 		if isBlankLine(l) {
 			continue
 		}
+		if len(bytes.TrimSpace(l)) == 0 {
+			// only non-JSON Unicode white space (\v, \f, U+0085, U+00A0): neither a document nor a blank line in the
+			// JSON sense; the library trims such bytes at the edges of the input. Outside the claim (as in C01).
+			return false, nil, false, "a line holds only non-JSON Unicode white space"
+		}
 		nonBlank++
 		v, m := rj.Classify(l)
 		_, perr := simdjson.Parse(append([]byte(nil), l...), nil)
